@@ -135,8 +135,8 @@ CHECKS.update({
 
 CHECKS.update({
     "C07": dict(
-        technique="static analysis: field-level taint from the running VM's fields into the aggregates built by save_state and from the saved state into the aggregates built by from_saved_state (closures included), against a reasoned exemption table; dominance of take_ready() by check_resolved_promises()",
-        text="Decides the state-capture clause and the no-lost-wake-up clause: every field of the running VM and of every trampoline frame flows into the saved "
+        technique="static analysis: field-level taint from the running VM's fields into the aggregates built by save_state and from the saved state into the aggregates built by from_saved_state (closures included), against a reasoned exemption table; dominance of take_ready() by check_resolved_promises(); handler-registration coverage of PromiseStatus observers",
+        text="Decides the state-capture clause, the no-lost-wake-up clause and that every observer of a promise's status subscribes to the pending case (Promise.allSettled / Promise.any do not: listed): every field of the running VM and of every trampoline frame flows into the saved "
              "state and back (caches and re-derived guards exempt by a reasoned table), and the restore re-guards what it puts "
              "back. The four fields the pinned tree lost across a suspension (this, the block-scope stack, pending finally "
              "completions of the VM and of frames) were reproduced with awaiting programs and repaired (fix: commit). Schedules, "
